@@ -40,6 +40,7 @@ var S2 = []string{
 	"@@", "@", "\\N", "\\'", "''", "<=>", "::", ":=", "||", "sp_password", "\n", "(", ")", ",", ";", "=", "-", "+",
 	"[", "]", "{", "}", "or", "union", "select",
 	"\xef\xbb\xbf", "\u0250", "\u017f", // BOM; runes whose upper case is longer (3 bytes) / is ASCII 'S'
+	"\xff", // a byte that is not valid UTF-8 on its own (strings.ToUpper turns it into 3 bytes)
 }
 
 // S3 — SQL token classes for the folder: one or two single-token fragments per token class
@@ -208,11 +209,14 @@ var S3lit = []string{
 	"user ", "user_id ", "user_name ", "database ", "password ", "current_user ", "current_date ", "current_time ",
 	"current_timestamp ", "localtime ", "localtimestamp ", "in ", "not ", "like ", "into ", "outfile ", "dumpfile ", "if ", "collate ", "a_b ",
 	"u&'s' ", "n's' ", "e's' ", "x'1f' ", "b'01' ", "0x1f ", "0b01 ", "1e5 ", "1.5d ", "q'(s)' ", "nq'[s]' ", "$a$s$a$ ", "\\N ", "--x/* ",
+	"all ", "by ", "group ", "order ", "`all` ", "`by` ", "`union` ", "`user` ", "\\ ", "+ ", "{ ", "`` ",
 }
 
 // SQLPrefixes put the scanner / the context cascade into a non-initial situation (an open quote
 // after an invalid high byte, a '#' or '--x' seen inside a quote, both quote kinds present ...).
-var SQLPrefixes = []string{"\xe9' ", "\xff\" ", "1' ", "a\" ", "\\' ", "1'/**/", ")' ", "x' # ", "x' --y ", "x # ", "x\" # ", "x' #\" ", "x\" #' ", "\xef\xbb\xbf"}
+var SQLPrefixes = []string{"\xe9' ", "\xff\" ", "1' ", "a\" ", "\\' ", "1'/**/", ")' ", "x' # ", "x' --y ", "x # ", "x\" # ", "x' #\" ", "x\" #' ", "\xef\xbb\xbf",
+	// window positions: k settled tokens that do not fold with each other, so that the next tokens meet every fold rule at window offset k
+	"1 ( ", "1 ( 1 ", "1 ( 1 ( ", "1 ( 1 ( 1 ", "1 ( 1 ( 1 ( ", "foo ) = ( ", "1 ) , ( ", "foo = ( ", "1 , ( "}
 
 // HTMLPrefixes put the tokenizer into a non-initial state (inside an end tag, after a quoted value,
 // after a self-closing slash, inside an attribute list ...).
@@ -306,6 +310,110 @@ func LenHTML(events []string) []string {
 			out = append(out, "<a href=\""+rep(junk, k)+"javascript:alert(1)\">", "<a href='"+rep(junk, k)+"data:x'>")
 		}
 		out = append(out, "<a href=\"j"+rep("\x00", k)+"avascript:x\">", "<a href=\"&#"+rep("0", k)+"106;avascript:x\">")
+	}
+	return out
+}
+
+// ByteSweepHTML: every byte value 0..255 at each syntactic position of a few canonical vectors (a
+// 256-entry class table with one wrong entry only shows for that byte at that position).
+func ByteSweepHTML() []string {
+	tmpl := []string{"<a onerror\x01x>", "<a onerror \x01x>", "<a onerror \x01javascript:x>", "<a href=\x01javascript:x>", "<a href=\"\x01javascript:x\">", "<\x01script>", "<s\x01cript>",
+		"<a\x01onerror=x>", "<a onerror=x\x01>", "<a onerror\x01=x>", "<a onerror=\x01x>", "<a href=java\x01script:x>", "<!\x01doctype>", "<!--\x01-->x", "</\x01a>", "<a x='y'\x01onerror=x>",
+		"onerror \x01x", "onerror\x01 x", "style\x01x", "\x01onerror x", "x\x01 onerror", "<a href=&#\x01106;avascript:x>", "<a href=&#x\x016a;avascript:x>", "<![CDATA[\x01]]>x", "<%\x01%>x"}
+	var out []string
+	for _, t := range tmpl {
+		for b := 0; b < 256; b++ {
+			out = append(out, strings.Replace(t, "\x01", string([]byte{byte(b)}), 1))
+		}
+	}
+	return out
+}
+
+// ByteSweepSQL: the same for the SQL side.
+func ByteSweepSQL() []string {
+	tmpl := []string{"1\x01or 1=1", "1 or\x011=1", "1 or 1\x01=1", "1' or\x01'1'='1", "'\x01' or 1", "1 union\x01select 1", "1\x01union select 1", "\x011 or 1=1", "1 or 1=1\x01", "1 or 1=1 --\x01", "1 --\x01x",
+		"1 /*\x01*/ or 1", "q'\x01a\x01' or 1", "$\x01$a$\x01$ or 1", "@\x01 or 1", "1;\x01drop table t", "sel\x01ect 1", "1 or 1=\x011", "x' and\x01'y", "0x\x011", "1e\x011", "1.\x01", "\\\x01", "-\x01-", "/\x01*", "#\x01", "`\x01`", "[\x01]"}
+	var out []string
+	for _, t := range tmpl {
+		for b := 0; b < 256; b++ {
+			out = append(out, strings.ReplaceAll(t, "\x01", string([]byte{byte(b)})))
+		}
+	}
+	return out
+}
+
+// CountSweepHTML: a vector preceded by k copies of a unit for EVERY k in 0..300 (fixed-size token
+// windows, batch boundaries and 8-bit counters fail at one particular count).
+func CountSweepHTML() []string {
+	var out []string
+	units := []string{"<b>", "<b x=1>", "x ", "<!--x-->", "a=b "}
+	vecs := []string{"<a onerror=x>", "<script>", "<a href=javascript:x>", "<a style=x>"}
+	for _, u := range units {
+		for _, v := range vecs {
+			for k := 0; k <= 300; k++ {
+				out = append(out, strings.Repeat(u, k)+v, ">"+strings.Repeat(u, k)+v, "'>"+strings.Repeat(u, k)+v)
+			}
+		}
+	}
+	// a bare attribute after k attribute-like units (unquoted attribute context), and after a closed quote
+	for _, u := range []string{"x ", "a=b ", "a='b' "} {
+		for k := 0; k <= 300; k++ {
+			out = append(out, strings.Repeat(u, k)+"onerror=x>", "' "+strings.Repeat(u, k)+"onerror=x>", "\" "+strings.Repeat(u, k)+"href=javascript:x>")
+		}
+	}
+	return out
+}
+
+// CountSweepSQL: the same for the SQL side.
+func CountSweepSQL() []string {
+	var out []string
+	units := []string{"1,", "(", " ", "a.", "/**/", "1+"}
+	vecs := []string{"1 union select 1", "1 or 1=1", "1; drop table t", "1' or '1'='1"}
+	for _, u := range units {
+		for _, v := range vecs {
+			for k := 0; k <= 300; k++ {
+				out = append(out, strings.Repeat(u, k)+v)
+			}
+		}
+	}
+	return out
+}
+
+// boundaryLens: lengths around the usual capacity boundaries.
+var boundaryLens = []int{62, 63, 64, 65, 66, 126, 127, 128, 129, 130, 254, 255, 256, 257, 258}
+
+// LenSQL2: more length boundaries: long tokens around 64/128/256, dollar tags of every length to 70,
+// a word of length W followed by filler so that the total length takes every value in a window (a
+// scanner that works in fixed-size windows fails when the remainder equals the window).
+func LenSQL2() []string {
+	var out []string
+	for _, k := range boundaryLens {
+		out = append(out, rep("a", k), "'"+rep("a", k)+"'", "$"+rep("a", k)+"$x$"+rep("a", k)+"$ or 1", rep("a", k)+" union select 1", "1 or "+rep("a", k)+"=1", "/*"+rep("a", k)+"*/1 or 1")
+	}
+	for k := 1; k <= 70; k++ {
+		out = append(out, "$"+rep("a", k)+"$x$"+rep("a", k)+"$", "$"+rep("a", k)+"$x$"+rep("A", k)+"$", "$"+rep("a", k)+"$x\xff$"+rep("A", k)+"$")
+	}
+	for _, W := range []int{30, 31, 32, 33, 34, 35, 40, 48, 63, 64, 65, 66, 95, 96, 97} {
+		for T := W; T <= W+40; T++ {
+			out = append(out, rep("a", W)+" "+rep("1", T-W), rep("a", W-6)+"having "+rep("1", T-W), "a"+rep("b", W-1)+" "+rep("c", T-W))
+		}
+	}
+	for k := 14; k <= 18; k++ {
+		out = append(out, rep("ɐ", k), rep("ɐ", k)+" or 1", "'"+rep("ɐ", k)+"'", rep("é", k), "@"+rep("é", k), "`"+rep("é", k)+"`", rep("é", k)+"\xa0or 1")
+	}
+	return out
+}
+
+// LenHTML2: names of every length 1..70 with a rune whose upper case is one byte longer, and the
+// boundary lengths for names and attribute values.
+func LenHTML2() []string {
+	var out []string
+	for L := 1; L <= 70; L++ {
+		n := rep("a", L-1)
+		out = append(out, "<"+n+"ɐ>", "<a "+n+"ɐ=x>", "<a on"+n+"ɐ=x>", "<"+n+"ı>", "<a "+n+"ſ=x>")
+	}
+	for _, k := range boundaryLens {
+		out = append(out, "<"+rep("a", k)+" onerror=x>", "<a "+rep("b", k)+"=x onerror=y>", "<a x='"+rep("c", k)+"' onerror=y>", "<script"+rep("\x00", k)+">")
 	}
 	return out
 }
